@@ -99,6 +99,7 @@ def run_job(spec):
         # wide enough and hands the frontier back (out['frontier']); subtree jobs start from given prefixes.
         work = [[tuple(d) for d in p] for p in spec.get('roots', [[]])]
         split_target = spec.get('split_target')
+        done_prefixes = []
         covers = set()
         deadline = t0 + spec.get('job_timeout_s', 3600)
         nx = 0
@@ -110,7 +111,8 @@ def run_job(spec):
             if (split_target and len(work) >= split_target) or \
                     (spec.get('path_budget') and out['paths'] >= spec['path_budget'] and work):
                 # hand the unexplored prefixes back for redistribution
-                out['frontier'] = [[list(d) for d in p] for p in work]
+                out['frontier'] = [[list(d) for d in p] for p in work] + done_prefixes
+                done_prefixes = []
                 work = []
                 break
             prefix = work.pop(0) if split_target else work.pop()
@@ -125,6 +127,10 @@ def run_job(spec):
                 out['aborted'] += 1
                 continue
             work.extend(eng.pending)
+            if split_target:
+                # split jobs only explore: the finished path is handed out as a (complete) prefix and proved by a subtree job
+                done_prefixes.append([list(d) for d in eng.prefix])
+                continue
             out['paths'] += 1
             out['realized'] = eng.realized
             if out['paths'] > h.max_paths:
@@ -202,6 +208,8 @@ def run_job(spec):
                     path_condition=[str(z3.simplify(c))[:160] for c in eng.pc[:6]],
                     goals=[g[0] for g in ctx.goals[:8]],
                     example_goal=str(ctx.goals[-1][1])[:400], notes=ctx.notes))
+        if split_target and done_prefixes:
+            out['frontier'] = out.get('frontier', []) + done_prefixes
         out['covers'] = sorted(covers)
         out['engine'] = eng.stats
         out['solve'] = {k: v for k, v in solve.STATS.items()}
